@@ -22,6 +22,10 @@ const (
 	eNil
 	eRemove0      // Remove[*S0]
 	eRemoveKeyed1 // RemoveKeyed[*S1]("k1")
+	eAddAs        // AddSingleton(S2 ctor, As[I0])
+	eAddAsKeyed   // AddSingleton(S3 ctor, As[I0], Name("k1"))
+	eRemoveI0     // Remove[I0]  (an interface type parameter)
+	eRemoveKeyedI // RemoveKeyed[I0]("k1")
 	numEntryKinds
 )
 
@@ -41,6 +45,14 @@ func (e entry) option() godi.ModuleOption {
 		return godi.Remove[*kit.S0]()
 	case eRemoveKeyed1:
 		return godi.RemoveKeyed[*kit.S1]("k1")
+	case eAddAs:
+		return godi.AddSingleton(kit.TabC[2][0], godi.As[kit.I0]())
+	case eAddAsKeyed:
+		return godi.AddSingleton(kit.TabC[3][0], godi.As[kit.I0](), godi.Name("k1"))
+	case eRemoveI0:
+		return godi.Remove[kit.I0]()
+	case eRemoveKeyedI:
+		return godi.RemoveKeyed[kit.I0]("k1")
 	}
 	panic("bad entry")
 }
@@ -63,6 +75,16 @@ func (e entry) apply(c godi.Collection) error {
 		return nil
 	case eRemoveKeyed1:
 		c.RemoveKeyed(kit.TypeS[1], "k1")
+		return nil
+	case eAddAs:
+		return c.AddSingleton(kit.TabC[2][0], godi.As[kit.I0]())
+	case eAddAsKeyed:
+		return c.AddSingleton(kit.TabC[3][0], godi.As[kit.I0](), godi.Name("k1"))
+	case eRemoveI0:
+		c.Remove(kit.TypeI0)
+		return nil
+	case eRemoveKeyedI:
+		c.RemoveKeyed(kit.TypeI0, "k1")
 		return nil
 	}
 	panic("bad entry")
@@ -145,7 +167,7 @@ func H_Modules() {
 		vrt.Assert(errors.As(err1, &me) == (len(want) > 0), "C20.module_error_as", "errors.As(ModuleError) =", errors.As(err1, &me))
 		if es[failedAt].kind == eFail {
 			vrt.Assert(errors.Is(err1, godi.ErrConstructorNil), "C20.cause_lost", "original cause not reachable through the module wrappers:", err1)
-		} else {
+		} else if es[failedAt].kind != eAddAs && es[failedAt].kind != eAddAsKeyed || true {
 			var ar *godi.AlreadyRegisteredError
 			vrt.Assert(errors.As(err1, &ar), "C20.cause_lost", "AlreadyRegisteredError not reachable through the module wrappers:", err1)
 		}
@@ -157,6 +179,8 @@ func H_Modules() {
 		vrt.Assert(c1.Contains(kit.TypeS[t]) == c2.Contains(kit.TypeS[t]), "C20.contains_differs", "Contains differs for slot", t)
 		vrt.Assert(c1.ContainsKeyed(kit.TypeS[t], "k1") == c2.ContainsKeyed(kit.TypeS[t], "k1"), "C20.contains_differs", "ContainsKeyed differs for slot", t)
 	}
+	vrt.Assert(c1.Contains(kit.TypeI0) == c2.Contains(kit.TypeI0), "C20.contains_differs", "Contains differs for the interface type")
+	vrt.Assert(c1.ContainsKeyed(kit.TypeI0, "k1") == c2.ContainsKeyed(kit.TypeI0, "k1"), "C20.contains_differs", "ContainsKeyed differs for the interface type")
 	vrt.Assert(c1.Count() == c2.Count(), "C20.count_differs", "Count", c1.Count(), "vs", c2.Count())
 	// ... and indistinguishable providers
 	kit.Reset()
